@@ -3,6 +3,9 @@ package main
 import (
 	"bytes"
 	"fmt"
+	"os"
+	"path/filepath"
+	"runtime"
 	"strings"
 	"time"
 
@@ -116,6 +119,11 @@ func renameGroupKeys(r *gen.R, v *gen.V, path ...string) {
 // useUnregisteredLevels: C05 judges the level name of unregistered severities structurally (see levelNameProblem)
 var useUnregisteredLevels bool
 
+// c05stalledW takes half of what it is handed and reports a deadline that expired.
+type c05stalledW struct{}
+
+func (c05stalledW) Write(p []byte) (int, error) { return len(p) / 2, os.ErrDeadlineExceeded }
+
 func c05main(c *Ctx) {
 	useUnregisteredLevels = true
 	registerHostileTitles()
@@ -150,8 +158,25 @@ func c05main(c *Ctx) {
 			tsLayout = gen.Pick(r, []string{time.RFC1123, time.Kitchen, "2006-01-02", time.RFC3339, "15:04:05.000", time.RFC850, "Jan _2 15:04"})
 			c.R.Add("records_with_a_logger_timestamp_layout", 1)
 		}
+		// the caller's file name may need escaping: the application mapped the directory of this program to a short form
+		// that holds a backslash, a quote or letters outside ASCII (a Windows-style alias, a project nickname)
+		if cs.caller && r.P(12) {
+			_, thisFile, _, _ := runtime.Caller(0)
+			dir := filepath.Dir(thisFile)
+			slog.AddFlags(slog.Lprivacypath)
+			slog.AddKnownPathMapping(dir, gen.Pick(r, []string{`D:\work\svc`, `~"proj"`, "~pr\u00f6j\u00e9", `C:\new\table`}))
+			defer slog.RemoveKnownPathMapping(dir)
+			c.R.Add("records_whose_caller_path_needs_escaping", 1)
+		}
+		// a second destination IN FRONT of the recording one that is cut short by a deadline (half of the payload and an
+		// error that says Timeout): the recording destination holds the one whole line all the same
+		stalled := idx%9 == 4
 		run := func(cs recCase) ([]byte, []tv) {
 			lg := newRoot(cs.name, FLogfmt, w, slog.AlwaysLevel)
+			if stalled {
+				lg.SetWriter(c05stalledW{}).AddWriter(w)
+				lg.SetErrorWriter(c05stalledW{}).AddErrorWriter(w)
+			}
 			if tsLayout != "" {
 				lg.SetTimeFormat(tsLayout)
 			}
@@ -170,6 +195,18 @@ func c05main(c *Ctx) {
 				doomedRecord(FLogfmt, w)
 			}
 			evs := capture(log, func() { lg.LogAttrs(bg, cs.lvl, cs.msg, mixedArgs(cs.kvs)...) })
+			if stalled {
+				// (the library's report about the stalled destination is a record of its own: C13 and C04 judge it)
+				var own []mon.Event
+				for _, e := range evs {
+					if e.Kind == mon.EvWrite && bytes.Contains(e.Data, []byte(diagText)) && len(own) > 0 {
+						continue
+					}
+					own = append(own, e)
+				}
+				evs = own
+				c.R.Add("records_with_a_stalled_destination_in_front", 1)
+			}
 			c.R.Add("write_events", int64(len(evs)))
 			if len(evs) != 1 || evs[0].Kind != mon.EvWrite {
 				return nil, []tv{{"one-write", "count", fmt.Sprintf("expected exactly one Write, saw %s", fmtEvents(evs))}}
